@@ -185,13 +185,13 @@ void ascon_masked_key_160_randomize_with_trng
     }
 #elif ASCON_MASKED_KEY_SHARES == 3
     for (index = 0; index < 6; ++index) {
-        ascon_masked_word_x2_randomize
+        ascon_masked_word_x3_randomize
             ((ascon_masked_word_t *)&(masked->k[index]),
              (ascon_masked_word_t *)&(masked->k[index]), trng);
     }
 #else
     for (index = 0; index < 6; ++index) {
-        ascon_masked_word_x2_randomize
+        ascon_masked_word_x4_randomize
             ((ascon_masked_word_t *)&(masked->k[index]),
              (ascon_masked_word_t *)&(masked->k[index]), trng);
     }
